@@ -158,7 +158,21 @@ fn bed_inputs() -> Vec<(String, String)> {
     let b2 = "chr1\t0\t5\nchr1\t5\t6\nchr10\t7\t1500\nchr2\t400\t500\n".to_string();
     let b3 = "chr1\t10\t100\tgene\t900\t+\t20\t90\t255,0,0\t2\t10,20,\t0,70,\nchr2\t5\t50\tg2\t1\t-\t5\t50\t0\t1\t45,\t0,\n".to_string();
     let b4 = b1.trim_end().to_string();
-    vec![(b1, sizes.clone()), (b2, sizes.clone()), (b3, sizes.clone()), (b4, sizes)]
+    // input 4 (explicit configurations only): the second and third chromosome carry more than 1 MiB of
+    // text each in rows of 9 KB (longer than the 8 KiB buffers, crossing every 64 KiB / 1 MiB mark of
+    // whatever stages a chromosome's text before it reaches the output)
+    // (the first chromosome has 60 000 short rows, so that it still owns the output while the later ones are staged)
+    let mut b5 = String::new();
+    for i in 0..60_000u32 {
+        b5.push_str(&format!("chr1\t{}\t{}\tr{}\n", i / 100, i / 100 + 5, i));
+    }
+    for (c, n) in [("chr10", 150u32), ("chr2", 130)] {
+        for i in 0..n {
+            let name: String = (0..9000u32).map(|k| (b'a' + ((i * 7 + k * 13 + k / 97) % 26) as u8) as char).collect();
+            b5.push_str(&format!("{}\t{}\t{}\t{}\t{}\n", c, 3 * i, 3 * i + 10, name, i));
+        }
+    }
+    vec![(b1, sizes.clone()), (b2, sizes.clone()), (b3, sizes.clone()), (b4, sizes.clone()), (b5, sizes)]
 }
 
 fn parse_bg(text: &str) -> Result<Vec<(String, u32, u32, u32)>, String> {
@@ -214,10 +228,102 @@ fn c16_all(quick: bool) -> Vec<C16Case> {
             }
         }
     }
+    // inputs of more than 200 MB with the default --parallel auto (input 99 is generated by the case)
+    for (bed, threads, single_pass, ucsc) in [(false, 3usize, false, false), (true, 6, false, true)] {
+        v.push(C16Case { bed, input: 99, threads, parallel: s("auto"), single_pass, inmemory: false, uncompressed: false, block_size: 256, zooms: false, multicall: ucsc, ucsc, stdin: false });
+    }
+    for (threads, parallel, single_pass, ucsc) in [(1usize, "no", false, false), (6, "yes", true, true)] {
+        v.push(C16Case { bed: true, input: 4, threads, parallel: s(parallel), single_pass, inmemory: false, uncompressed: threads == 6, block_size: 256, zooms: false, multicall: ucsc, ucsc, stdin: false });
+    }
     for (threads, parallel, single_pass, ucsc) in [(1usize, "no", false, false), (6, "yes", false, true), (2, "auto", true, false), (16, "no", true, true)] {
         v.push(C16Case { bed: false, input: 5, threads, parallel: s(parallel), single_pass, inmemory: threads == 6, uncompressed: threads == 2, block_size: 256, zooms: false, multicall: ucsc, ucsc, stdin: false });
     }
     v
+}
+
+/// An input of more than 200 000 000 bytes with the default `--parallel auto`: the converters then
+/// switch to the per-chromosome parallel source on their own.  The conversion must succeed and the
+/// file must hold every record (totals, and records read back at both ends of each chromosome).
+fn c16_over_200mb(c: &C16Case, out: &mut Outcome) {
+    use std::io::Write as _;
+    let wd = workdir();
+    let dir = wd.path();
+    let per = if c.bed { [4_600_000u32, 3_900_000] } else { [4_900_000u32, 4_300_000] };
+    {
+        let mut f = std::io::BufWriter::with_capacity(1 << 20, std::fs::File::create(dir.join("in.txt")).unwrap());
+        for (ci, n) in per.iter().enumerate() {
+            for i in 0..*n {
+                if c.bed {
+                    writeln!(f, "chr{}\t{}\t{}\tname{}\t{}\t+", ci + 1, 2 * i, 2 * i + 3, i, i % 1000).unwrap();
+                } else {
+                    writeln!(f, "chr{}\t{}\t{}\t{}", ci + 1, 2 * i, 2 * i + 1, (i % 97) as f32 * 0.5).unwrap();
+                }
+            }
+        }
+    }
+    let size = std::fs::metadata(dir.join("in.txt")).map(|m| m.len()).unwrap_or(0);
+    if size < 200_000_000 {
+        out.fail("harness_panic", &[], format!("the large input has only {} bytes", size));
+        return;
+    }
+    std::fs::write(dir.join("sizes"), "chr1\t20000000\nchr2\t20000000\n").unwrap();
+    let tool = if c.bed { if c.ucsc { "bedToBigBed" } else { "bedtobigbed" } } else if c.ucsc { "bedGraphToBigWig" } else { "bedgraphtobigwig" };
+    let mut argv: Vec<String> = if c.multicall { vec![s("bigtools"), s(tool)] } else { vec![s(tool)] };
+    argv.extend([s("in.txt"), s("sizes"), s("out.bb"), s("-t"), c.threads.to_string()]);
+    if c.single_pass {
+        argv.push(s("--single-pass"));
+    }
+    let tags = vec![if c.bed { s("bed") } else { s("bedgraph") }, s("input_over_200_mb"), s("parallel_auto")];
+    let r = run_in(dir, &argv);
+    out.count("process_runs", 1);
+    out.count("conversions_of_inputs_over_200_mb", 1);
+    if r.timed_out || r.code != Some(0) {
+        out.fail("conversion_failed", &tags, format!("{:?} on a {} byte input: exit {:?} timed_out {} stderr {}", argv, size, r.code, r.timed_out, r.stderr.chars().take(300).collect::<String>()));
+        return;
+    }
+    let path = dir.join("out.bb");
+    let res = guarded(|| -> Result<(), String> {
+        let total: u64 = per.iter().map(|n| *n as u64).sum();
+        if c.bed {
+            let mut rd = BigBedRead::open_file(&path).map_err(|e| format!("{}", e))?;
+            let n = rd.item_count().map_err(|e| format!("{}", e))?;
+            if n != total {
+                return Err(format!("item count {} for {} input lines", n, total));
+            }
+            for (ci, cn) in per.iter().enumerate() {
+                for (a, b, first_i) in [(0u32, 10u32, 0u32), (2 * (cn - 3), 2 * cn + 3, cn - 4)] {
+                    let got: Vec<(u32, u32, String)> = rd.get_interval(&format!("chr{}", ci + 1), a, b).map_err(|e| format!("{}", e))?.map(|e| e.map(|e| (e.start, e.end, e.rest))).collect::<Result<_, _>>().map_err(|e| format!("{}", e))?;
+                    // entries that only touch the range may or may not be returned
+                    let got: Vec<(u32, u32, String)> = got.into_iter().filter(|g| g.0 < b && g.1 > a).collect();
+                    let want: Vec<(u32, u32, String)> = (first_i..*cn).filter(|i| 2 * i < b && 2 * i + 3 > a).map(|i| (2 * i, 2 * i + 3, format!("name{}\t{}\t+", i, i % 1000))).collect();
+                    if got != want {
+                        return Err(format!("chr{} [{},{}): {} entries {:?}, expected {:?}", ci + 1, a, b, got.len(), got.first(), want.first()));
+                    }
+                }
+            }
+        } else {
+            let mut rd = BigWigRead::open_file(&path).map_err(|e| format!("{}", e))?;
+            let sm = rd.get_summary().map_err(|e| format!("{}", e))?;
+            if sm.bases_covered != total {
+                return Err(format!("{} bases covered for {} one-base input lines", sm.bases_covered, total));
+            }
+            for (ci, cn) in per.iter().enumerate() {
+                for (a, b, first_i) in [(0u32, 10u32, 0u32), (2 * (cn - 3), 2 * cn + 3, cn - 4)] {
+                    let got: Vec<(u32, u32, u32)> = rd.get_interval(&format!("chr{}", ci + 1), a, b).map_err(|e| format!("{}", e))?.map(|e| e.map(|e| (e.start, e.end, e.value.to_bits()))).collect::<Result<_, _>>().map_err(|e| format!("{}", e))?;
+                    let want: Vec<(u32, u32, u32)> = (first_i..*cn).filter(|i| 2 * i < b && 2 * i + 1 > a).map(|i| (2 * i, 2 * i + 1, ((i % 97) as f32 * 0.5).to_bits())).collect();
+                    if got != want {
+                        return Err(format!("chr{} [{},{}): {} values {:?}, expected {:?}", ci + 1, a, b, got.len(), got.first(), want.first()));
+                    }
+                }
+            }
+        }
+        Ok(())
+    });
+    match res {
+        Ok(Ok(())) => {}
+        Ok(Err(e)) => out.fail("roundtrip_records_differ", &tags, e),
+        Err(p) => out.fail("roundtrip_records_differ", &tags, format!("reading the output panicked: {}", p)),
+    }
 }
 
 impl Check for C16 {
@@ -230,6 +336,10 @@ impl Check for C16 {
     }
     fn run(&self, c: &C16Case, out: &mut Outcome) {
         out.nontrivial = true;
+        if c.input == 99 {
+            c16_over_200mb(c, out);
+            return;
+        }
         let wd = workdir();
         let dir = wd.path();
         let (text, sizes) = if c.bed { bed_inputs()[c.input].clone() } else { bedgraph_inputs()[c.input].clone() };
